@@ -129,6 +129,7 @@ type chain struct {
 	calls     int
 	subs      []submission
 	accept    bool
+	advance   bool // an accepted block becomes the best block (the later rounds of a longer history)
 }
 
 func (c *chain) BestBlockNode() *blockchain.BlockNode {
@@ -145,6 +146,9 @@ func (c *chain) ProcessBlock(b *massutil.Block) (bool, error) {
 	c.subs = append(c.subs, submission{time.Now(), b})
 	if !c.accept {
 		return false, errors.New("scripted rejection")
+	}
+	if c.advance {
+		c.best = &blockchain.BlockNode{Hash: b.Hash(), Height: b.Height(), CapSum: new(big.Int).Add(c.best.CapSum, big.NewInt(1)), Timestamp: b.MsgBlock().Header.Timestamp, Quality: big.NewInt(1)}
 	}
 	return false, nil
 }
@@ -205,6 +209,7 @@ type scenario struct {
 	mined    bool
 	signed   []string
 	second   string // error of a second round for the same height
+	later    string // "" or what happened when the height was offered again after the chain went on and came back (reorganisation)
 	problems []string
 }
 
@@ -490,6 +495,68 @@ func run(sc *scenario, t0 time.Time, now0 uint64) {
 		}
 		sc.second = miner.VerifErrName(err2)
 	}
+	nsubs, nsigned := -1, -1
+	if sc.event == "mined" && err == nil && m.VerifMined(sc.height) {
+		ch.mu.Lock()
+		nsubs = len(ch.subs) // the oracles on submitted blocks judge the designed round only
+		ch.mu.Unlock()
+		kp.mu.Lock()
+		nsigned = len(kp.signed)
+		kp.mu.Unlock()
+		// a longer history: the chain goes on (the mined block becomes the tip, the next height is mined too), then is
+		// reorganised back below the first height, which is offered again - it was mined already
+		easy := func(height uint64, prevH wire.Hash) func(chan interface{}) {
+			return func(out chan interface{}) {
+				coinbase := wire.NewMsgTx()
+				coinbase.AddTxOut(wire.NewTxOut(12345, []byte{0x51}))
+				cbTx := massutil.NewTx(coinbase)
+				pt := &blockchain.PoCTemplate{
+					Height: height, Timestamp: time.Unix(int64(uint64(time.Now().Unix())/pocSlot-1)*pocSlot, 0), Previous: prevH, Challenge: wire.Hash(challenge),
+					GetTarget:   func(time.Time) *big.Int { return big.NewInt(0) },
+					GetCoinbase: func(p blockchain.Proof, fee massutil.Amount) (*massutil.Tx, error) { return cbTx, nil },
+					PassBinding: func(p blockchain.Proof) bool { return true },
+				}
+				hdr := wire.NewEmptyBlockHeader()
+				hdr.Height, hdr.Previous, hdr.Version = height, prevH, 1
+				blk := wire.NewMsgBlock(hdr)
+				blk.AddTransaction(coinbase)
+				cbHash := coinbase.TxHash()
+				out <- pt
+				out <- &blockchain.BlockTemplate{Block: blk, TotalFee: massutil.ZeroAmount(), Height: height,
+					MerkleCache: []*wire.Hash{&cbHash}, WitnessMerkleCache: []*wire.Hash{&cbHash}}
+			}
+		}
+		round := func() (error, bool) {
+			q := make(chan struct{})
+			t := time.AfterFunc(4*time.Second, func() { close(q) })
+			b, rw, e := m.VerifSolveBlock(payout, q)
+			ok := false
+			if e == nil {
+				ok = m.VerifSubmitBlock(massutil.NewBlock(b), rw, q)
+			}
+			if t.Stop() {
+				close(q)
+			}
+			return e, ok
+		}
+		ch.mu.Lock()
+		ch.advance = true
+		tipH := wire.Hash{0xC1, byte(sc.id)}
+		ch.best = &blockchain.BlockNode{Hash: &tipH, Height: sc.height, CapSum: big.NewInt(2000), Timestamp: time.Now().Add(-10 * time.Second), Quality: big.NewInt(1)}
+		ch.templates = append(ch.templates, easy(sc.height+1, tipH))
+		ch.mu.Unlock()
+		if e2, ok2 := round(); e2 == nil && ok2 && m.VerifMined(sc.height+1) {
+			ch.mu.Lock()
+			lowH := wire.Hash{0xC2, byte(sc.id)}
+			ch.best = &blockchain.BlockNode{Hash: &lowH, Height: sc.height - 1, CapSum: big.NewInt(9000), Timestamp: time.Now().Add(-10 * time.Second), Quality: big.NewInt(1)}
+			ch.templates = append(ch.templates, easy(sc.height, lowH))
+			ch.mu.Unlock()
+			e3, ok3 := round()
+			sc.later = fmt.Sprintf("%s submitted=%v", miner.VerifErrName(e3), ok3)
+		} else {
+			sc.later = "next-height-not-mined:" + miner.VerifErrName(e2)
+		}
+	}
 	if cutoff.Stop() {
 		close(cut)
 	}
@@ -498,11 +565,19 @@ func run(sc *scenario, t0 time.Time, now0 uint64) {
 	}
 	stop()
 	ch.mu.Lock()
-	sc.subs = append([]submission(nil), ch.subs...)
+	if nsubs >= 0 {
+		sc.subs = append([]submission(nil), ch.subs[:nsubs]...)
+	} else {
+		sc.subs = append([]submission(nil), ch.subs...)
+	}
 	ch.mu.Unlock()
 	sc.mined = m.VerifMined(sc.height)
 	kp.mu.Lock()
-	sc.signed = append([]string(nil), kp.signed...)
+	if nsigned >= 0 {
+		sc.signed = append([]string(nil), kp.signed[:nsigned]...)
+	} else {
+		sc.signed = append([]string(nil), kp.signed...)
+	}
 	kp.mu.Unlock()
 }
 
@@ -706,6 +781,9 @@ func oracles(h *hx.H, sc *scenario, start int64) {
 			h.Fail("submitted-after-better-tip", "a better chain tip arrived while waiting for the block's timestamp, the block was submitted nevertheless")
 		}
 	case sc.event == "mined":
+		if sc.later != "" && !strings.HasPrefix(sc.later, "next-height-not-mined") && !strings.HasPrefix(sc.later, "avoidDoubleMining") {
+			h.Fail("height-mined-twice-after-reorg", "the height was mined, the next one too, then the chain was reorganised to below the first and it was offered again: "+sc.later+" (expected errAvoidDoubleMining)")
+		}
 		if len(sc.subs) > 0 && sc.second != "avoidDoubleMining" {
 			h.Fail("height-mined-twice", "a second round for an accepted height did not end with errAvoidDoubleMining: "+sc.second)
 		}
